@@ -12,6 +12,9 @@ R03.5  every edit that moves the moof (emsg insertion, tfdt insertion, PIFF
        insertion) reaches the reset of tfhd.base_data_offset / the forcing of
        trun.data_offset / the saio reset before the tree is encoded.
 R03.6  = R04.3 (edit API invalidates, two-pass encode order).
+R03.7  every path to encode (edited or not) resets the base offset read from the stored file and
+       forces the trun data_offset field, because the fragment is re-based and the trun fix-up
+       cannot add the field without growing the encoded box.
 """
 from __future__ import annotations
 
@@ -624,14 +627,105 @@ def r03_4_5(rep: Report) -> None:
         rep.fail('R03.5', c3, 'reports the modification and invalidates trun',
                  'after inserting the PIFF box the function must invalidate trun and return True '
                  '(the handler resets tfhd/saio only when told the traf changed)', ut)
-    # fragments are opened read-write (the edit API refuses read-only trees)
     lf = need(find_func(cls, 'load_fragment'), 'load_fragment')
+    r03_7(rep, c, fn, lf, results)
+    # fragments are opened read-write (the edit API refuses read-only trees)
     from .c10 import load_fragment_facts
     if load_fragment_facts(lf)['modes'] == {'rw'}:
         rep.ok('R03.5', f'{MR}::MediaRequestBase.load_fragment', "mp4.Options(mode='rw')")
     else:
         rep.fail('R03.5', f'{MR}::MediaRequestBase.load_fragment', "mp4.Options(mode='rw')",
                  'fragments are not loaded read-write: every edit raises PermissionError', lf)
+
+
+def growing_fixups(tree: ast.Module) -> list[tuple[str, str, ast.AST]]:
+    """(class, flag constant, statement) for every post_encode fix-up that switches an optional field on
+    (`self.flags |= self.K` where the class writes a field under `self.flags & self.K`) and then
+    re-encodes the box in place: the box was encoded without the field, so the rewrite is longer than
+    the box and runs over the bytes that follow it"""
+    out = []
+    for cls in [n for n in tree.body if isinstance(n, ast.ClassDef)]:
+        pe = find_func(cls, 'post_encode')
+        if pe is None:
+            continue
+        guarded = set()
+        for f in [n for n in cls.body if isinstance(n, ast.FunctionDef) and n.name != 'post_encode'
+                  and not any(norm(d) == 'classmethod' for d in n.decorator_list)]:
+            for n in ast.walk(f):
+                if isinstance(n, ast.If):
+                    for b in ast.walk(n.test):
+                        if isinstance(b, ast.BinOp) and isinstance(b.op, ast.BitAnd) and norm(b.left) == 'self.flags' \
+                                and isinstance(b.right, ast.Attribute) \
+                                and any(isinstance(c, ast.Call) and (call_name(c) or '').endswith('.write')
+                                        for x in n.body for c in ast.walk(x)):
+                            guarded.add(b.right.attr)
+
+        def scan(body: list[ast.stmt]) -> None:
+            enabled: list[tuple[str, ast.AST]] = []
+            for st in body:
+                if isinstance(st, ast.AugAssign) and isinstance(st.op, ast.BitOr) and norm(st.target) == 'self.flags' \
+                        and isinstance(st.value, ast.Attribute) and st.value.attr in guarded:
+                    enabled.append((st.value.attr, st))
+                if enabled and any(isinstance(c, ast.Call) and call_name(c) in ('self.encode_fields', 'self.encode')
+                                   for c in ast.walk(st)):
+                    out.extend((cls.name, k, at) for k, at in enabled)
+                    enabled = []
+                for sub in ('body', 'orelse', 'finalbody'):
+                    inner = getattr(st, sub, None)
+                    if isinstance(inner, list) and inner and isinstance(inner[0], ast.stmt):
+                        scan(inner)
+        scan(pe.body)
+    return out
+
+
+def r03_7(rep: Report, c: str, fn: ast.FunctionDef, lf: ast.FunctionDef, results: list[set]) -> None:
+    """
+    R03.7  the fragment is parsed at its stored position and encoded into a fresh buffer, so on EVERY path
+    to encode (not only those that edit the moof) (a) an offset that tfhd.parse read from the stream - the
+    explicit base_data_offset - is stale and has to be reset, and (b) a box whose post_encode fix-up can
+    only add its offset field by growing the encoded box has to carry the field before encode.
+    """
+    mp4 = rep.repo.tree(MP4)
+    # premises, read from the code
+    fresh = [n for n in ast.walk(fn) if isinstance(n, ast.Assign) and norm(n.value) == 'io.BytesIO()'
+             and any(norm(t) == 'dest' for t in n.targets)]
+    rebased = [n for n in ast.walk(lf) if isinstance(n, ast.Call) and (call_name(n) or '').endswith('BufferedReader')
+               and any(k.arg == 'offset' and not (isinstance(k.value, ast.Constant) and k.value.value == 0)
+                       for k in n.keywords)]
+    tfhd = need(find_class(mp4, 'TrackFragmentHeaderBox'), 'TrackFragmentHeaderBox')
+    parse = need(find_func(tfhd, 'parse'), 'TrackFragmentHeaderBox.parse')
+    raw_base = [n for n in ast.walk(parse) if isinstance(n, ast.Call) and (call_name(n) or '').endswith('.read')
+                and any(isinstance(a, ast.Constant) and a.value == 'base_data_offset' for a in n.args)]
+    if fresh and rebased and raw_base:
+        if all('base-reset' in s for s in results):
+            rep.ok('R03.7', c, 're-based fragment -> tfhd.base_data_offset reset',
+                   f'{len(results)} path(s) to encode, each resets the base read from the stored file')
+        else:
+            rep.fail('R03.7', c, 're-based fragment -> tfhd.base_data_offset reset',
+                     'the fragment is parsed at its stored position (BufferedReader offset=) and encoded into a fresh '
+                     'buffer, but a path reaches atom.encode() with the base_data_offset that tfhd.parse read from the '
+                     'stored file: for a stored tfhd with an explicit base the trun offset is computed against a '
+                     'position of the stored file', fn)
+    else:
+        rep.ok('R03.7', c, 're-based fragment -> tfhd.base_data_offset reset',
+               'not required: the fragment keeps its stored position or the base is not read from the stream')
+    grow = growing_fixups(mp4)
+    for cname, k, at in grow:
+        if cname != 'TrackFragmentRunBox':
+            rep.fail('R03.7', f'{MP4}::{cname}.post_encode', f'in-place rewrite grows the box ({k})',
+                     f'post_encode switches on `{k}` and re-encodes the box in place: the rewrite is longer than the '
+                     'encoded box and overwrites what follows it; no caller obligation is known for this class', at)
+            continue
+        if all('trun-forced' in s for s in results):
+            rep.ok('R03.7', c, f'growing fix-up of {cname} never taken ({k} forced)',
+                   f'{len(results)} path(s) to encode, each sets trun.flags |= {k} first')
+        else:
+            rep.fail('R03.7', c, f'growing fix-up of {cname} never taken ({k} forced)',
+                     f'{MP4}::{cname}.post_encode adds the `{k}` field by re-encoding the box in place, 4 bytes longer '
+                     'than it was encoded: the bytes after the trun (the next box header, in the end the mdat header) '
+                     'are overwritten. A path reaches atom.encode() without forcing the field first', fn)
+    if not grow:
+        rep.ok('R03.7', f'{MP4}::TrackFragmentRunBox.post_encode', 'no fix-up grows an encoded box')
 
 
 def analyse(rep: Report) -> None:
@@ -647,6 +741,7 @@ def analyse(rep: Report) -> None:
     rep.rule('R03.3', 'saio rewrite skipped only under the saio bug option', floor=4)
     rep.rule('R03.4', 'nothing writes to the encoded segment except the guarded corruption hook', floor=2)
     rep.rule('R03.5', 'box insertions reach the offset resets before encode', floor=6)
+    rep.rule('R03.7', 'a re-based fragment resets stored offsets and leaves room for the fix-ups on every path', floor=2)
     rep.rule('R04.3', 'edit API invalidates cached encodings; two-pass encode order (shared with C04)',
              floor=10)
     idx = Index(rep.repo, 'dashlive')
